@@ -14,6 +14,7 @@ let int_of_n = function N0 -> 0 | Npos p -> int_of_pos p
 
 let table = [
   ("C03", c03_run_line);
+  ("C17", c17_run_line);
 ]
 
 let () =
